@@ -168,7 +168,7 @@ def run_case(case, timeout=20.0, keep_dir=False):
             p_ = os.path.join(d, name)
             if os.path.exists(p_):
                 with open(p_, "rb") as f:
-                    files_after[name] = enc(f.read())
+                    files_after[name] = enc(f.read(MAX_LOG_BYTES))   # a runaway writer must not take the driver down with it
                 inode_after[name] = os.stat(p_).st_ino
             else:
                 files_after[name] = None
